@@ -12,10 +12,12 @@ def run():
     r2 = vlib.model_check("IndexQueueImpl", "IndexQueueImpl_dev2.cfg", expect_ok=False, timeout=600)
     chk.add_model("IndexQueueImpl/deviation PopLeftChecksEmptyOnce (must violate)", r2, note="violated: %s" % r2["violated"])
     # fine-grained model of the Michael deque (anchor CAS, push/pop/stabilize on both ends)
-    for cfg in ("DequeImpl.cfg", "DequeImpl_b.cfg", "DequeImpl_abp.cfg"):
+    for cfg in ("DequeImpl.cfg", "DequeImpl_b.cfg", "DequeImpl_abp.cfg", "DequeImpl_both.cfg"):
         chk.add_model("DequeImpl/%s" % cfg[:-4], vlib.model_check("DequeImplMC", cfg, timeout=900))
     rd = vlib.model_check("DequeImplMC", "DequeImpl_dev.cfg", expect_ok=False, timeout=900)
     chk.add_model("DequeImpl/variant pop_ignores_other_push (must violate)", rd, note="violated: %s" % rd["violated"])
+    rd2 = vlib.model_check("DequeImplMC", "DequeImpl_dev2.cfg", expect_ok=False, timeout=900)
+    chk.add_model("DequeImpl/variant push_ignores_other_push (must violate)", rd2, note="violated: %s" % rd2["violated"])
     if chk.thorough():
         # unbounded argument for the index queue: inductive invariant checked by Apalache for arbitrary
         # integer range bounds (base case, induction step, invariant implies the property)
